@@ -44,6 +44,7 @@ const (
 	fRemoveB                  // node B may be removed from the topology at any point (its slots unowned or taken over by A)
 	fMultiReplies             // one backend read may carry several complete replies
 	fQuietLoss                // a backend may go away without the proxy reading EOF first: it finds out when it writes
+	fLateClient               // the second client connects at some point of the schedule (after a disconnect it gets the freed descriptor number)
 )
 
 const verifTimeoutMs = 50
@@ -306,7 +307,10 @@ func HarnessWorld(prop, m1, m2, steps, kinds, faults int) {
 		if m == 0 {
 			continue
 		}
-		cl := &vClient{conn: w.NewClient([]string{"10.0.0.1:5000", "10.0.0.2:5000"}[ci]), touched: make([]bool, m)}
+		cl := &vClient{touched: make([]bool, m)}
+		if !(faults&fLateClient != 0 && ci == 1) {
+			cl.conn = w.NewClient([]string{"10.0.0.1:5000", "10.0.0.2:5000"}[ci])
+		}
 		for i := 0; i < m; i++ {
 			kind := allowed[verifrt.Choice("kind", len(allowed))]
 			verifrt.Assume(kind != kQuit || i == m-1) // nothing after QUIT is owed a reply
@@ -338,6 +342,10 @@ func HarnessWorld(prop, m1, m2, steps, kinds, faults int) {
 		}
 		may := func(fd int) bool { return !pending || touched[fd] < perFd }
 		for i, cl := range clients {
+			if cl.conn == nil {
+				enabled = append(enabled, ev{10, i})
+				continue
+			}
 			if cl.sent < len(cl.reqs) && cl.conn.Opened() && !cl.hungUp && may(cl.conn.Fd) {
 				enabled = append(enabled, ev{0, i})
 			}
@@ -462,7 +470,7 @@ func HarnessWorld(prop, m1, m2, steps, kinds, faults int) {
 			// every request that is waiting for a backend now has been written to it (no task is
 			// pending), so its deadline is running: it is owed the timeout error
 			for _, cl := range clients {
-				if cl.hungUp || !cl.conn.Opened() {
+				if cl.conn == nil || cl.hungUp || !cl.conn.Opened() {
 					continue
 				}
 				replies, _ := splitReplies(w.Sent(cl.conn))
@@ -477,6 +485,8 @@ func HarnessWorld(prop, m1, m2, steps, kinds, faults int) {
 		case 6:
 			probes++
 			w.Probe([]string{"A:1", "B:1"}[e.arg])
+		case 10:
+			clients[e.arg].conn = w.NewClient("10.0.0.2:5000")
 		case 7:
 			// a changed CLUSTER NODES reply was adopted: node B is gone; its slots are unowned (arg 0)
 			// or have been taken over by A (arg 1). The ticker closes B's pool and rebuilds the table.
@@ -501,7 +511,7 @@ func HarnessWorld(prop, m1, m2, steps, kinds, faults int) {
 		if prop == 16 && e.kind == 5 {
 			// C16: the sweep that follows the expiry answers every waiting request, with the timeout error
 			for _, cl := range clients {
-				if cl.hungUp || !cl.conn.Opened() {
+				if cl.conn == nil || cl.hungUp || !cl.conn.Opened() {
 					continue
 				}
 				replies, rest := splitReplies(w.Sent(cl.conn))
@@ -515,7 +525,7 @@ func HarnessWorld(prop, m1, m2, steps, kinds, faults int) {
 		}
 
 		for _, cl := range clients {
-			if cl.hungUp {
+			if cl.conn == nil || cl.hungUp {
 				continue
 			}
 			log := w.Sent(cl.conn)
@@ -574,6 +584,10 @@ func HarnessWorld(prop, m1, m2, steps, kinds, faults int) {
 	// quiescence: everything sent, every live backend has answered, no tasks pending
 	quiet := !w.TasksPending()
 	for _, cl := range clients {
+		if cl.conn == nil {
+			quiet = false // it has not even connected yet
+			continue
+		}
 		if cl.sent < len(cl.reqs) && !cl.hungUp && cl.conn.Opened() {
 			quiet = false
 		}
@@ -589,13 +603,16 @@ func HarnessWorld(prop, m1, m2, steps, kinds, faults int) {
 	}
 	verifrt.ObserveBool("quiet", quiet)
 	for _, cl := range clients {
+		if cl.conn == nil {
+			continue
+		}
 		verifrt.ObserveBytes("client", w.Sent(cl.conn))
 		verifrt.ObserveBool("open", cl.conn.Opened())
 	}
 	_ = lastEvent
 	if quiet {
 		for _, cl := range clients {
-			if cl.hungUp {
+			if cl.conn == nil || cl.hungUp {
 				continue
 			}
 			replies, rest := splitReplies(w.Sent(cl.conn))
